@@ -10,6 +10,8 @@ CONTRACTS = {
     'C03': 'contracts.c03',
     'C04': 'contracts.c04',
     'C05': 'contracts.c05',
+    'C06': 'contracts.c06',
+    'C11': 'contracts.c11',
     'C13': 'contracts.c13',
 }
 
